@@ -877,6 +877,7 @@ func cmdCheck(args []string) {
 	os.WriteFile(filepath.Join(evDir, id+".json"), b, 0o644)
 	fmt.Printf("property=%s tier=%s obligations=%d discharged=%d known_findings=%d not_proved=%d violations=%d wall=%.1fs\n", id, *tier, nObl, nDis, len(known), len(notProved), len(violations), wall)
 	if len(violations) > 0 {
+		s.close() // os.Exit skips the deferred call
 		os.Exit(1)
 	}
 }
